@@ -165,9 +165,11 @@ structure ELayer where
   bias : Option (Nat × Rat)
   /-- `get_val(layer_item, "multiplier")` (merge quantizer for merge layers) -/
   multiplier : Option OpUnit
-  /-- `get_val(layer_item, "accumulator").output` — `none` when the item has no such key
-      (the pooling items are dicts keyed `pool_sum_accumulator`) -/
+  /-- `get_val(layer_item, "accumulator").output` — `none` when the item has no such key -/
   accumulator : Option QInfo
+  /-- `get_val(layer_item, "pool_sum_accumulator").output` (the pooling items are dicts with
+      this key; `none` for every other item)                              [fix 2562e1d] -/
+  poolAccumulator : Option QInfo
   /-- BN: internal_divide_quantizer, internal_multiplier -/
   bnDivider : Option OpUnit
   bnMultiplier : Option OpUnit
@@ -197,7 +199,7 @@ def opEnergy (c : Costs) (l : ELayer) : Option Rat :=
     let e ← opCost c t u.mode u.gateBits
     pure (((l.nInputs : Rat) - 1) * (l.opCount : Rat) * u.gateFactor * e)
   | .avgPool => do
-    let a ← l.accumulator          -- None.output → AttributeError
+    let a ← l.poolAccumulator      -- None.output → AttributeError
     let t ← opType? a
     let e ← opCost c t .add a.bits
     pure ((l.opCount : Rat) * e)
